@@ -51,6 +51,7 @@ type c04Fam struct {
 	sIsSubset func(s, o any) bool
 	sIsSuper  func(s, o any) bool
 	sOp       func(op string, s any, k int, xs []int, others []any) any
+	sDetached func(s any) bool // writing into ToArray()'s result must not reach the stream
 	removeInPlace bool
 	// sets
 	newSet    func(keys []int) any
@@ -67,6 +68,7 @@ type c04Fam struct {
 	ssPtr  func(s any) uintptr
 	ssRead func(s any) (map[int][]int, map[int]bool)
 	ssOp   func(op string, s any, other any) any
+	ssPoke func(s any) (undo func()) // overwrite the first element of every per-key stream (through the slice type itself)
 }
 
 func copyInts(l []int) []int { return append([]int(nil), l...) }
@@ -93,6 +95,18 @@ func genericFam() *c04Fam {
 	f.sLen = func(s any) int { return s.(*S).Len() }
 	f.sGet = func(s any, i int) int { return s.(*S).Get(i) }
 	f.sContains = func(s any, x int) bool { return s.(*S).Contains(x) }
+	f.sDetached = func(s any) bool {
+		st := s.(*S)
+		a := st.ToArray()
+		if len(a) == 0 {
+			return true
+		}
+		old := (*st)[0]
+		a[0] = old + 1000
+		ok := (*st)[0] == old
+		(*st)[0] = old
+		return ok
+	}
 	arg := func(o any) *S {
 		if o == nil {
 			return nil
@@ -233,6 +247,21 @@ func genericFam() *c04Fam {
 		}
 		return o, n
 	}
+	f.ssPoke = func(s any) func() {
+		var undo []func()
+		for _, v := range s.(*SS).MapSetDef {
+			if v != nil && len(*v) > 0 {
+				v, old := v, (*v)[0]
+				(*v)[0] = old + 1000
+				undo = append(undo, func() { (*v)[0] = old })
+			}
+		}
+		return func() {
+			for _, u := range undo {
+				u()
+			}
+		}
+	}
 	f.ssOp = func(op string, s any, other any) any {
 		a := s.(*SS)
 		var b *SS
@@ -302,6 +331,18 @@ func ifaceFam() *c04Fam {
 		return x
 	}
 	f.sContains = func(s any, x int) bool { return s.(*S).Contains(x) }
+	f.sDetached = func(s any) bool {
+		st := s.(*S)
+		a := st.ToArray()
+		if len(a) == 0 {
+			return true
+		}
+		old := (*st)[0]
+		a[0] = "overwritten"
+		ok := (*st)[0] == old
+		(*st)[0] = old
+		return ok
+	}
 	arg := func(o any) *S {
 		if o == nil {
 			return nil
@@ -448,6 +489,22 @@ func ifaceFam() *c04Fam {
 		}
 		return o, n
 	}
+	f.ssPoke = func(s any) func() {
+		var undo []func()
+		for _, v := range s.(*SS).SetForInterfaceDef {
+			sp, _ := v.(*S)
+			if sp != nil && len(*sp) > 0 {
+				sp, old := sp, (*sp)[0]
+				(*sp)[0] = "poked"
+				undo = append(undo, func() { (*sp)[0] = old })
+			}
+		}
+		return func() {
+			for _, u := range undo {
+				u()
+			}
+		}
+	}
 	f.ssOp = func(op string, s any, other any) any {
 		a := s.(*SS)
 		var b *SS
@@ -583,11 +640,8 @@ func (m *c04Machine) verify() string {
 				}
 			}
 			// ToArray must be detached
-			if len(got) > 0 {
-				got[0] = 55
-				if again := f.sToArray(h.obj); !eqSeq(again, h.val.seq) {
-					return fmt.Sprintf("handle h%d: writing into the slice returned by ToArray changed the stream to %v", i, again)
-				}
+			if !f.sDetached(h.obj) {
+				return fmt.Sprintf("handle h%d: writing into the slice returned by ToArray changes the stream (not a detached copy)", i)
 			}
 		case kSet:
 			got := f.setRead(h.obj)
@@ -842,6 +896,15 @@ func (m *c04Machine) apply(st c04Step) (what string) {
 			oh = other(st.others[0])
 		}
 		res = f.ssOp(st.op, h.obj, objOf(oh))
+		if st.op == "Clone" {
+			// a clone is deep: overwriting the clone's per-key streams must not be visible through the original
+			undo := f.ssPoke(res)
+			got, _ := f.ssRead(h.obj)
+			undo()
+			if !eqMapSeq(got, h.val.ss) {
+				return fmt.Sprintf("writing into the per-key streams of the clone changed the original to %v (model %v)", got, h.val.ss)
+			}
+		}
 		mv.ss, mv.ssn = map[int][]int{}, map[int]bool{}
 		emptyArg := oh == nil || len(oh.val.ss) == 0
 		switch st.op {
